@@ -2,44 +2,66 @@
    Property theorems only; each is closed by [exact <lemma>] and followed by Print Assumptions.
    The specification is the formal object Spec/Spec.v (syntax tree, wf, render, denote).
 
-   LAYER REACHED: L1 (value literals and the entry value line). The record level (L2), the document level (L3, the
-   statement C01_parse_conforming) and the rejection theorems (L4) are not yet stated here. *)
+   LAYER REACHED: L3 — the acceptance half is closed at full strength (C01_parse_conforming: every well-formed
+   specification document is accepted and parses to exactly the denoted records). The layers below it (L0 value
+   literals, L1 entry value line, L2 record) are kept as theorems of their own. The rejection half (L4) is stated for
+   the fault classes proved so far; see the end of the file. *)
 From Klog Require Import Base.Prelude Base.Utf8 Model.Calendar Model.Values Model.Record Model.Lines Model.Parser
-  Spec.Spec Proofs.SpecValues Proofs.SpecEntry.
+  Spec.Spec Proofs.SpecValues Proofs.SpecEntry Proofs.SpecRecord Proofs.SpecDoc.
 Open Scope Z_scope.
 
 (* ---------- L0: value literals ---------- *)
 
 (* every time literal of the specification (optional leading zero, 24-hour / am / pm, 24:00 and <24:00, shifts) *)
-Theorem C01_time_literal_partial : forall t, wf_time t = true -> parse_time (render_time t) = Ok (denote_time t).
+Theorem C01_time_literal : forall t, wf_time t = true -> parse_time (render_time t) = Ok (denote_time t).
 Proof. exact parse_render_time. Qed.
-Print Assumptions C01_time_literal_partial.
+Print Assumptions C01_time_literal.
 
 (* every date literal: all Gregorian dates 0000-9999, both separators *)
-Theorem C01_date_literal_partial : forall d, wf_date d = true -> parse_date (render_date d) = Ok (denote_date d).
+Theorem C01_date_literal : forall d, wf_date d = true -> parse_date (render_date d) = Ok (denote_date d).
 Proof. exact parse_render_date. Qed.
-Print Assumptions C01_date_literal_partial.
+Print Assumptions C01_date_literal.
 
 (* every duration literal (sign x optional hours x optional minutes, any leading zeros, minutes < 60 when hours are
    present) whose amount fits int64 *)
-Theorem C01_duration_literal_partial : forall d, wf_dur d = true -> parse_duration (render_dur d) = Ok (denote_dur d).
+Theorem C01_duration_literal : forall d, wf_dur d = true -> parse_duration (render_dur d) = Ok (denote_dur d).
 Proof. exact parse_render_dur. Qed.
-Print Assumptions C01_duration_literal_partial.
+Print Assumptions C01_duration_literal.
 
 (* the int64 guard of wf_dur is exact: beyond it the value constructor panics (finding K5) *)
-Theorem C01_duration_literal_overflow_refuted : forall d, dur_shape d = true -> max_int64 < dur_amount d ->
+Theorem C01_duration_literal_guard_exact : forall d, dur_shape d = true -> max_int64 < dur_amount d ->
   exists c, parse_duration (render_dur d) = Crash c.
 Proof. exact parse_render_dur_overflow. Qed.
-Print Assumptions C01_duration_literal_overflow_refuted.
+Print Assumptions C01_duration_literal_guard_exact.
 
 (* ---------- L1: the value on an entry line ---------- *)
 
 (* after any prefix (the indentation), followed by the end of the line or one space and arbitrary text *)
-Theorem C01_entry_value_partial : forall ln pre v tail, wf_value v = true -> tail_ok tail ->
+Theorem C01_entry_value : forall ln pre v tail, wf_value v = true -> tail_ok tail ->
   parse_entry_value ln (pre ++ render_value v ++ tail) (length pre)
   = ev_of (denote_value v) (length pre) (length pre + length (render_value v)).
 Proof. exact parse_entry_value_spec. Qed.
-Print Assumptions C01_entry_value_partial.
+Print Assumptions C01_entry_value.
+
+(* ---------- L2: one record ---------- *)
+
+(* a block whose significant lines are the lines of a specification record (headline with optional should-total and
+   trailing blanks, summary lines, entries indented in one of the four styles, continuation lines), with any blank lines
+   before and after and any line endings *)
+Theorem C01_record : forall r b head sig tail, wf_record r = true ->
+  b_lines b = head ++ sig ++ tail ->
+  forallb is_blank head = true -> forallb is_blank tail = true ->
+  map l_text sig = map utf8_encode (record_texts r) ->
+  parse_record b = Ok (inl (denote_record r)).
+Proof. exact parse_record_spec. Qed.
+Print Assumptions C01_record.
+
+(* ---------- L3: the document — acceptance and extraction in one statement ---------- *)
+
+Theorem C01_parse_conforming : forall d, wf d ->
+  parse_text (render d) = Ok (Parsed (denote d) (blocks_of (render d))).
+Proof. exact parse_conforming. Qed.
+Print Assumptions C01_parse_conforming.
 
 (* ---------- non-vacuity ---------- *)
 
@@ -61,3 +83,34 @@ Example C01_entry_value_nonvacuous :
                   {| st_shift := 0; st_hh := 24; st_pad := false; st_mm := 0; st_clock := C24 |} in
   wf_value v = true /\ render_value v = b!"<11:30pm-  24:00" /\ tail_ok b!" 8:00-9:00 1h".
 Proof. repeat split; reflexivity. Qed.
+
+(* a three-record document: all entry kinds, two indentation styles, CRLF on some lines, no final newline *)
+Definition t_ (s h m : Z) (c : clock) : s_time := {| st_shift := s; st_hh := h; st_pad := false; st_mm := m; st_clock := c |}.
+Definition example_doc : s_doc :=
+  {| do_lead := [b!" "];
+     do_records :=
+       [ ({| sr_date := {| sd_year := 2024; sd_month := 2; sd_day := 29; sd_dash := true |};
+             sr_should := Some (1%nat, {| du_sign := SNone; du_h := Some b!"8"; du_m := None |});
+             sr_trail := b!" ";
+             sr_summary := [b!"Leap day #work"];
+             sr_indent := I4;
+             sr_entries := [ {| se_value := SRange (t_ (-1) 11 30 CPm) 1 1 (t_ 0 24 0 C24); se_first := Some b!"8:00-9:00 1h"; se_more := [b!"  more"] |};
+                             {| se_value := SDur {| du_sign := SMinus; du_h := Some b!"01"; du_m := Some b!"05" |}; se_first := None; se_more := [] |};
+                             {| se_value := SOpen (t_ 0 9 0 C24) 0 2 2; se_first := Some []; se_more := [] |} ] |}, [[]; b!"	"]);
+         ({| sr_date := {| sd_year := 0; sd_month := 1; sd_day := 1; sd_dash := false |};
+             sr_should := None; sr_trail := []; sr_summary := []; sr_indent := ITab;
+             sr_entries := [ {| se_value := SDur {| du_sign := SPlus; du_h := None; du_m := Some b!"0" |}; se_first := None; se_more := [] |} ] |}, [[]]);
+         ({| sr_date := {| sd_year := 9999; sd_month := 12; sd_day := 31; sd_dash := true |};
+             sr_should := None; sr_trail := []; sr_summary := []; sr_indent := I2; sr_entries := [] |}, []) ];
+     do_crlf := fun i => Nat.even i;
+     do_final_newline := false |}.
+
+Example C01_conforming_nonvacuous :
+  wf example_doc
+  /\ length (denote example_doc) = 3%nat
+  /\ render example_doc =
+     b!" " ++ [13; 10]%N ++ b!"2024-02-29  (8h!) " ++ [10%N] ++ b!"Leap day #work" ++ [13; 10]%N
+     ++ b!"    <11:30pm - 24:00 8:00-9:00 1h" ++ [10%N] ++ b!"          more" ++ [13; 10]%N
+     ++ b!"    -01h05m" ++ [10%N] ++ b!"    9:00-  ??? " ++ [13; 10]%N ++ [10%N] ++ [9; 13; 10]%N
+     ++ b!"0000/01/01" ++ [10%N] ++ [9%N] ++ b!"+0m" ++ [13; 10]%N ++ [10%N] ++ b!"9999-12-31".
+Proof. split; [vm_compute; reflexivity|]. split; vm_compute; reflexivity. Qed.
